@@ -108,6 +108,29 @@ class CallMixin:
     def instantiate(self, ci, args, kwargs, node):
         if self.is_exception_class(ci):
             return self.instantiate_exc(ci, args, kwargs, node)
+        record_like = any(d.split('(')[0].endswith('dataclass') for d in ci.decorators) or \
+            any(isinstance(b, str) and b.endswith('NamedTuple') for b in ci.mro)
+        if record_like and ci.ann_fields and (ci.lookup('__init__') is None):
+            vals = list(args)
+            if any(isinstance(b, str) and b.endswith('NamedTuple') for b in ci.mro):
+                for name in ci.ann_fields[len(vals):]:
+                    vals.append(kwargs[name] if name in kwargs else
+                                (self.eval_in_module(ci.module, ci.attrs[name]) if name in ci.attrs else UnkV(name)))
+                t = TupleV(vals)
+                t.names = list(ci.ann_fields)
+                return t
+            obj = ObjV(ci)
+            for i, name in enumerate(ci.ann_fields):
+                if i < len(vals):
+                    obj.fields[name] = vals[i]
+                elif name in kwargs:
+                    obj.fields[name] = kwargs[name]
+                elif name in ci.attrs:
+                    obj.fields[name] = self.eval_in_module(ci.module, ci.attrs[name])
+                else:
+                    self.note_unknown(node, f'dataclass field {name} not supplied')
+            self.event('new', node, cls=ci, obj=obj, args=args, kwargs=kwargs)
+            return obj
         obj = ObjV(ci)
         self.event('new', node, cls=ci, obj=obj, args=args, kwargs=kwargs)
         r = ci.lookup('__init__')
